@@ -93,6 +93,41 @@ class Clock:
         raise core.HarnessError(f"data_collection uses time.{name}, which the harness does not own")
 
 
+_STATICS: Dict[Tuple[str, str, str], Any] = {}
+
+
+def _restore_statics():
+    """Executions share one process: mutable class attributes and module globals of the data-logger modules are put back to
+    what they were at import, so that nothing leaks from one EXECUTION into the next (what leaks from one recording into
+    the next inside an execution stays visible - that is the library's behaviour)."""
+    import copy
+
+    # every data-logger module loaded so far (the formatters live in a namespace package: sys.modules, not pkgutil)
+    mods = [m for n, m in sorted(sys.modules.items()) if n.startswith("pyrtma.data_logger") and m is not None]
+    for mod in mods:
+        for name, val in list(vars(mod).items()):
+            if name.startswith("__"):
+                continue
+            if isinstance(val, (list, dict, set)) and getattr(val, "__module__", None) is None:
+                key = (mod.__name__, "", name)
+                if key not in _STATICS:
+                    _STATICS[key] = copy.deepcopy(val)
+                elif val != _STATICS[key]:
+                    setattr(mod, name, copy.deepcopy(_STATICS[key]))
+            if isinstance(val, type) and val.__module__ == mod.__name__:
+                for an, av in list(vars(val).items()):
+                    if an.startswith("__") or not isinstance(av, (list, dict, set)):
+                        continue
+                    key = (mod.__name__, val.__name__, an)
+                    if key not in _STATICS:
+                        try:
+                            _STATICS[key] = copy.deepcopy(av)
+                        except Exception:
+                            pass
+                    elif av != _STATICS[key]:
+                        setattr(val, an, copy.deepcopy(_STATICS[key]))
+
+
 def mk_msg(i: int, kind: int):
     import pyrtma.core_defs as cd
     from pyrtma.message import Message
@@ -131,6 +166,7 @@ def execute(case, prefix: Sequence[int], line_level: bool) -> Dict[str, Any]:
 
     ops, config, fmt = case
     _patch_points()
+    _restore_statics()
     fcls = {"raw": RawFormatter, "json": JsonFormatter, "quicklogger": QLFormatter}[fmt]
     gc.collect()
     base = tempfile.mkdtemp(prefix="c17_", dir="/dev/shm" if os.path.isdir("/dev/shm") else None)
@@ -186,7 +222,9 @@ def execute(case, prefix: Sequence[int], line_level: bool) -> Dict[str, Any]:
         sub = 30 if "subdiv" in config else 0
         sets = [DataSet("col", "dA", "", "fileA", fcls, sub, [cd.ALL_MESSAGE_TYPES], md)]
         if config.startswith("two"):
-            sets.append(DataSet("col", "dB", "", "fileB", fcls, 0, [cd.MT_CLIENT_SET_NAME], md))
+            # the 32-slot msg_types array of an ADD_DATA_SET request as a client fills it: used slots need not be adjacent
+            sets.append(DataSet("col", "dB", "", "fileB", fcls, 0, [cd.MT_CLIENT_SET_NAME, 0, cd.MT_MODULE_READY] + [0] * 29, md))
+            res["configured"] = {"dB": {cd.MT_CLIENT_SET_NAME, cd.MT_MODULE_READY}}
         for ds in sets:
             c.add_data_set(ds)
         res["sets"] = sets
@@ -262,7 +300,8 @@ def verify(res, handed, fmt, base) -> List[Dict[str, Any]]:
 
     problems = []
     for ds in res["sets"]:
-        want = [m for m in handed if ds.all_sub or m.type_id in ds.msg_types]
+        conf = res.get("configured", {}).get(ds.name)  # what the data set was asked to record (None = everything)
+        want = [m for m in handed if conf is None or m.type_id in conf]
         d = base
         stem = "fileA" if ds.name == "dA" else "fileB"
         ext = ds.formatter_cls.ext
